@@ -146,6 +146,24 @@ def wellformed_inputs(ctx):
         # a calendar that defines its own time zone (an id no provider knows) and uses it
         tzid = b'Verif/Custom-' + str(ctx.seed).encode() + b'-' + str(k).encode() + ctx.rng.choice([b'', b'/Sub', b'_x'])
         yield f'custom-tz-{k}', CUSTOM_TZ % (tzid, tzid, tzid, tzid)
+    # sizes: one very long content line (an inline attachment, a long description) and a text of many lines, both
+    # well beyond any buffer size a reader might use (64 KiB, 1 MiB in the thorough tier)
+    big = 1_200_000 if ctx.tier == 'thorough' else 100_000
+    for k, filler in enumerate(('x', 'ab ', '\u00e9')):
+        ev = icalendar.Event()
+        ev.add('uid', 'big-%d' % k)
+        ev.add('description', filler * (big // len(filler)))
+        ev.add('summary', 'after the long line')
+        cal = icalendar.Calendar()
+        cal.add('prodid', '-//verif//big//EN')
+        cal.add('version', '2.0')
+        for j in range(3):
+            e2 = icalendar.Event()
+            e2.add('uid', 'pad-%d' % j)
+            e2.add('comment', 'c' * 30000)
+            cal.add_component(e2)
+        cal.add_component(ev)
+        yield f'big-{k}', cal.to_ical()
     for name, data in calgen.fixtures():
         try:
             data.decode('utf-8')
